@@ -796,3 +796,7 @@ def replay(body):
         if why or (model and impl[i] != model[i]):
             rc = 1
     return rc
+
+
+def regen_setup():
+    return regen_kinds()[:2]
